@@ -80,6 +80,8 @@ def run(ck):
         ck.ob("C10-O3", sitestr(f, n), ok, "%s: %s" % (describe(n)[:60], why) if ok else "unsanctioned destructive call %s: %s" % (describe(n)[:80], why),
               key="destructive|%s|%s|%s" % (strip_tmpl(f.name).split("::")[-1], k, why if not ok else "ok"))
     ck.require(n_sites >= 4, "fewer destructive call sites than confirmed by hand (%d < 4)" % n_sites)
+    from rules.c06 import unlimited_deletes_nothing
+    unlimited_deletes_nothing(ck, S, "C10-O3")
     fi = S.m["findNextIndexForDate"]
     from rules.c06 import regex_patterns
     tp = [t for t in regex_patterns(F, fi) if t[0].startswith("^")]
